@@ -7,6 +7,7 @@ package main
 
 import (
 	"fmt"
+	"os"
 	"sort"
 	"strconv"
 	"strings"
@@ -142,4 +143,32 @@ func (x *Exec) callOrdinal(fn *ssa.Function, site *ssa.Call, want string) int {
 		}
 	}
 	return 0
+}
+
+var srcLineCache = map[string][]string{}
+
+// sourceLine returns the text of the source line an obligation position ("file:line:col") refers to.
+func sourceLine(pos string) string {
+	parts := strings.Split(pos, ":")
+	if len(parts) < 2 {
+		return ""
+	}
+	file := parts[0]
+	ln, err := strconv.Atoi(parts[1])
+	if err != nil {
+		return ""
+	}
+	lines, ok := srcLineCache[file]
+	if !ok {
+		b, err := os.ReadFile(file)
+		if err != nil {
+			return ""
+		}
+		lines = strings.Split(string(b), "\n")
+		srcLineCache[file] = lines
+	}
+	if ln < 1 || ln > len(lines) {
+		return ""
+	}
+	return lines[ln-1]
 }
